@@ -465,9 +465,10 @@ a row a builtin option is described by the global row `<name>`; a project option
 def rowNameFor (rows : List OptRow) (o : Observed) : Str :=
   let q := o.sub ++ ':' :: o.name
   if o.builtin then
-    if hasRow rows q then q
-    else if startsWith o.name "build.".toList && !hasRow rows o.name then o.name.drop 6
-    else o.name
+    -- native build: a `build.` option without rows of its own is described by the host rows (`P:name`, else `name`)
+    let nm := if startsWith o.name "build.".toList && !hasRow rows o.name && !hasRow rows q then o.name.drop 6 else o.name
+    let q' := o.sub ++ ':' :: nm
+    if hasRow rows q' then q' else nm
   else if o.sub.isEmpty then o.name else q
 
 /-- every observed option is listed, and every row of that name shows the value get_option() returned -/
